@@ -288,6 +288,9 @@ class PropertyRun:
             c = rep.contract
             if c.file.startswith("/verif/"):
                 continue  # property lemmas over contracts: no repository function to call
+            if c.options.get("no_concrete"):
+                self.consistency[rep.label] = {"evaluated": 0, "note": "not sampled: the contract quantifies over a module global"}
+                continue
             try:
                 ev, sk, bad, und = gen.consistency_sample(c, self.repo, n=16, seed=self.seed, seconds=6.0)
             except Exception as e:  # noqa: BLE001  (no generator for these parameter types, or the clause is not evaluable concretely)
